@@ -19,6 +19,7 @@ type PropMap struct {
 	Units      []string `json:"units"`
 	Sweep      bool     `json:"sweep"`       // every function of the package (safety sweep)
 	Only       []string `json:"only"`        // optional: restrict to obligation kinds
+	OnlyLabels []string `json:"only_labels"` // with only: postconditions with these labels count as well
 	NotDecided []string `json:"not_decided"` // clauses of the property no obligation covers
 	Trusted    []string `json:"trusted"`
 	Bounded    []string `json:"bounded"`
@@ -248,6 +249,13 @@ func (e *Engine) checkProperty(verif, prop, tier string, t0 time.Time) int {
 				for _, k := range p.Only {
 					if o.Kind == k {
 						keep = true
+					}
+				}
+				if o.Kind == "ensures" {
+					for _, l := range p.OnlyLabels {
+						if o.Label == l {
+							keep = true
+						}
 					}
 				}
 				if !keep {
